@@ -9,7 +9,8 @@ P = "Minicbor.C11."
 REQUIRED = [P + n for n in """token_progress tokenizer_bounded tokenizer_bounded' tokenize_item tokenize_encW
     tokenize_encW_single token_value token_value_canon token_int_kinds tokens_canonicalise canon_spec tokens_of_preferred
     tokens_roundtrip valueEq_loose half_roundtrip""".split()]
-PACKAGES = ["hcore", "hcore@dbg"]
+PACKAGES = ["hcore"]
+DEBUG_TWINS = True
 RULE = ("tokdec <hex> / tokenc <tokens>: (a) well-formed item sequences from wire trees (preferred and non-preferred heads, indefinite containers, chunked strings): "
         "the token list must carry the data-model value of every head (oracle from the tree) and re-encoding the implementation's own tokens must give the preferred "
         "form of the same sequence (indefinite kept); (b) all 65536 half patterns except signalling NaNs round-trip through F16 tokens; all simple values; "
@@ -160,12 +161,6 @@ def value_equal(a, b):
 
 
 def streams(rng, tier):
-    # every stream also on the build with debug assertions on: `Token::decode`, the tokenizer and `Display` may carry
-    # `debug_assert!`s / `cfg!(debug_assertions)` branches that only an unoptimised build executes
-    return runner.debug_twins(_streams(rng, tier))
-
-
-def _streams(rng, tier):
     q = tier == "quick"
     trees = W.small_trees(rng, 200 if q else 2000)
     for _ in range(1500 if q else 30000):
